@@ -30,7 +30,7 @@ From Coq Require Import List NArith ZArith Bool.
 From ApiFu Require Import Base.Sexp Fut.Plan Fut.Future Fut.ExecAsync Fut.ExecSync Fut.Denote Fut.SubPerm
      Fut.Live Fut.AsyncWrap Fut.AsyncRun Fut.FutSpec Fut.VisibleProofs Fut.SyncMust Fut.FutProofs
      Fut.BridgeC01 Fut.BridgeProofs Fut.BridgeNulls Fut.BridgeCands Fut.BridgeCompose.
-From ApiFu Require Exe.ExecData Exe.ExecSpec Exe.ExecModel Exe.ExecHyps.
+From ApiFu Require ExeA.ArgData ExeA.ArgArgs ExeA.ArgSpec ExeA.ArgModel ExeA.ArgHyps Val.Values.
 Import ListNotations.
 
 (** ** the property *)
@@ -175,9 +175,11 @@ Proof. exact same_error_refuted_by_schedule. Qed.
 
 (** ** composition with C01: every schedule yields the ExecuteRequest-algorithm data
 
+    (C01's model is coq/ExeA: the one its check ties to the code, with field arguments.)
     [plan_of code S D E fuel W] (Fut/BridgeC01.v) turns C01's world — schema [S], parsed document
     [D], variables [E], resolver-outcome tree [W] — into a plan tree by following C01's reference
-    ([ExecSpec]): CollectFields, field kinds, ResolveAbstractType and result coercion are C01's own
+    ([ArgSpec]): CollectFields, field kinds, the argument step of ExecuteField ([s_with_args]: C05's CoerceArgumentValues,
+    then the outcome stored under [field_key name arguments]), ResolveAbstractType and result coercion are C01's own
     definitions, used as they are; a coerced leaf value j becomes [VLeaf (code j)] for an
     arbitrary coding [code] of leaf values into integers, and [tr code] translates C01's response
     values accordingly.  [C02_bridge_data]: the data the plan denotes is C01's reference data.
@@ -196,33 +198,33 @@ Proof. exact same_error_refuted_by_schedule. Qed.
     [conforms] on this side, not yet one statement. *)
 Theorem C02_bridge_data : forall code S D E fuel W,
   data_shape (plan_of code S D E fuel W) =
-  tr_data code (ExecSpec.data (ExecSpec.exec_spec S D E fuel W)).
+  tr_data code (ArgSpec.data (ArgSpec.exec_spec S D E fuel W)).
 Proof. exact bridge_data. Qed.
 
 Theorem C02_every_schedule_yields_ExecuteRequest_data_partial :
-  forall (code : ExecData.json -> Z) S D E fuel n W d errs md root sigma fuelr jfuel,
-  ExecHyps.type_names_okb S = true -> ExecHyps.doc_positions_okb D = true ->
-  ExecSpec.doc_ok S D E fuel n = true ->
-  ExecModel.run ExecModel.fixed S D E fuel W = ExecModel.Done d errs ->
+  forall (code : ArgData.json -> Z) S D E fuel n W d errs md root sigma fuelr jfuel,
+  ArgHyps.type_names_okb S = true -> ArgHyps.doc_positions_okb D = true ->
+  ArgSpec.doc_ok S D E fuel n = true ->
+  ArgModel.run ArgModel.fixed S D E fuel W = ArgModel.Done d errs ->
   same_outcomes root (plan_of code S D E fuel W) ->
   fair sigma -> count_async root <= fuelr -> resp_depth root < jfuel ->
   exists r, run fixed_flags sigma md fuelr jfuel root = Done r /\
             r_data r = tr_data code d /\
-            r_data r = tr_data code (ExecSpec.data (ExecSpec.exec_spec S D E fuel W)) /\
+            r_data r = tr_data code (ArgSpec.data (ArgSpec.exec_spec S D E fuel W)) /\
             conforms root (r_data r) (r_errors r).
 Proof. exact schedule_yields_reference_data. Qed.
 
 Theorem C02_bridge_null_paths : forall code S D E fuel W,
-  null_paths (ExecSpec.failure_nulls (ExecSpec.exec_spec S D E fuel W)) =
+  null_paths (ArgSpec.failure_nulls (ArgSpec.exec_spec S D E fuel W)) =
   site_paths (visible_nulls (plan_of code S D E fuel W)).
 Proof. exact bridge_null_paths. Qed.
 
 Theorem C02_every_schedule_explains_reference_nulls_partial :
-  forall (code : ExecData.json -> Z) S D E fuel W md root sigma fuelr jfuel,
+  forall (code : ArgData.json -> Z) S D E fuel W md root sigma fuelr jfuel,
   same_outcomes root (plan_of code S D E fuel W) ->
   fair sigma -> count_async root <= fuelr -> resp_depth root < jfuel ->
   exists r, run fixed_flags sigma md fuelr jfuel root = Done r /\
-            null_paths (ExecSpec.failure_nulls (ExecSpec.exec_spec S D E fuel W)) = site_paths (visible_nulls root) /\
+            null_paths (ArgSpec.failure_nulls (ArgSpec.exec_spec S D E fuel W)) = site_paths (visible_nulls root) /\
             Forall (fun x => exists e, In e (r_errors r) /\ lands e x) (visible_nulls root).
 Proof. exact schedule_yields_reference_nulls. Qed.
 
@@ -235,23 +237,42 @@ Proof. exact schedule_yields_reference_nulls. Qed.
     failure-null of the reference is explained by one of the errors the reference admits there.
     What remains outside: source locations (C01's), messages, and leaf values cross as [code j]. *)
 Theorem C02_bridge_candidates : forall code S D E fuel n W,
-  ExecSpec.doc_ok S D E fuel n = true ->
-  null_sites (ExecSpec.failure_nulls (ExecSpec.exec_spec S D E fuel W)) =
+  ArgSpec.doc_ok S D E fuel n = true ->
+  null_sites (ArgSpec.failure_nulls (ArgSpec.exec_spec S D E fuel W)) =
   plan_sites (visible_nulls (plan_of code S D E fuel W)).
 Proof. exact bridge_candidates. Qed.
 
 Theorem C02_every_schedule_yields_ExecuteRequest_response :
-  forall (code : ExecData.json -> Z) S D E fuel n W d errs md root sigma fuelr jfuel,
-  ExecHyps.type_names_okb S = true -> ExecHyps.doc_positions_okb D = true ->
-  ExecSpec.doc_ok S D E fuel n = true ->
-  ExecModel.run ExecModel.fixed S D E fuel W = ExecModel.Done d errs ->
+  forall (code : ArgData.json -> Z) S D E fuel n W d errs md root sigma fuelr jfuel,
+  ArgHyps.type_names_okb S = true -> ArgHyps.doc_positions_okb D = true ->
+  ArgSpec.doc_ok S D E fuel n = true ->
+  ArgModel.run ArgModel.fixed S D E fuel W = ArgModel.Done d errs ->
   same_outcomes root (plan_of code S D E fuel W) ->
   fair sigma -> count_async root <= fuelr -> resp_depth root < jfuel ->
   exists r, run fixed_flags sigma md fuelr jfuel root = Done r /\
             r_data r = tr_data code d /\
-            null_sites (ExecSpec.failure_nulls (ExecSpec.exec_spec S D E fuel W)) = plan_sites (visible_nulls root) /\
+            null_sites (ArgSpec.failure_nulls (ArgSpec.exec_spec S D E fuel W)) = plan_sites (visible_nulls root) /\
             conforms root (r_data r) (r_errors r).
 Proof. exact schedule_yields_reference_response. Qed.
+
+(** The same for a whole request of C01's current model (coq/ExeA: field arguments through C05's
+    CoerceArgumentValues, operation selection and variable coercion in front — [run_request]):
+    when the request determines an operation [o] and its variables coerce to [vv]. *)
+Theorem C02_every_schedule_yields_request_response :
+  forall (code : ArgData.json -> Z) S R opname raw fuel n W o vv d errs md root sigma fuelr jfuel,
+  ArgSpec.s_get_operation R (ArgSpec.opname_of opname) = Some o ->
+  ArgModel.coerce_request_vars S o raw = Values.Ok vv ->
+  ArgHyps.type_names_okb S = true -> ArgHyps.doc_positions_okb (ArgData.doc_of R o vv) = true ->
+  ArgSpec.doc_ok S (ArgData.doc_of R o vv) (ArgArgs.env_of_vars vv) fuel n = true ->
+  ArgModel.run_request ArgModel.fixed S R opname raw fuel W = ArgModel.Done d errs ->
+  same_outcomes root (plan_of code S (ArgData.doc_of R o vv) (ArgArgs.env_of_vars vv) fuel W) ->
+  fair sigma -> count_async root <= fuelr -> resp_depth root < jfuel ->
+  exists r, run fixed_flags sigma md fuelr jfuel root = Done r /\
+            r_data r = tr_data code d /\
+            null_sites (ArgSpec.failure_nulls (ArgSpec.exec_spec S (ArgData.doc_of R o vv) (ArgArgs.env_of_vars vv) fuel W)) =
+            plan_sites (visible_nulls root) /\
+            conforms root (r_data r) (r_errors r).
+Proof. exact schedule_yields_request_response. Qed.
 
 (** ** supporting statements *)
 
@@ -356,6 +377,7 @@ Print Assumptions C02_bridge_null_paths.
 Print Assumptions C02_every_schedule_explains_reference_nulls_partial.
 Print Assumptions C02_bridge_candidates.
 Print Assumptions C02_every_schedule_yields_ExecuteRequest_response.
+Print Assumptions C02_every_schedule_yields_request_response.
 Print Assumptions C02_conforms_tag_blind.
 Print Assumptions C02_visible_nulls_agree.
 Print Assumptions C02_conforms_by_reading.
